@@ -161,6 +161,18 @@ def check(repo, res, tier):
         n.value, ast.Call) and call_name(n.value) == '_calc_task_delay']
     if not tot_names:
         res.bad('C06.W3', d, d.node, 'total not from _calc_task_delay', 'do_work does not ask the delay model')
+    # the delay is applied to the duration on THIS machine: the recompute precedes the delay call
+    okorder = True
+    for p in dpaths:
+        ir = [i for i, e in enumerate(p.events) if any(e.node is r for r in recomputes)]
+        it = [i for i, e in enumerate(p.events) if any(e.node is t for t in tot_names)]
+        if ir and it and min(it) < max(ir):
+            okorder = False
+    if tot_names and recomputes:
+        (res.ok if okorder else res.bad)(
+            'C06.W3', d, tot_names[0], 'the duration is recomputed for the actual machine before the delay model is applied',
+            'ok' if okorder else 'the total duration is taken from the delay model BEFORE the duration is recomputed for the '
+            'machine the task really runs on: a task moved to a faster (slower) machine still runs its planned duration')
     # ---- W4 ----------------------------------------------------------------
     ig = repo.func('Cluster._generate_ingest_tasks')
     ifr = Frame(ig)
